@@ -52,6 +52,7 @@ package keeper
 //@   ensures tracked: err == nil ==> totalEscrowOf(kv(ctx, k.storeService), coin.Denom) == T0 + coin.Amount
 //@   ensures one_key: err == nil ==> onlyKeyChanged(withLedger(old(world(ctx)), ledger(ctx)), world(ctx), escrowKey(coin.Denom))
 //@   ensures funded: err == nil && coin.Amount > 0 ==> bal(L0, str(sender), coin.Denom) >= coin.Amount
+//@   ensures total_follows_escrow_balance: err == nil && str(sender) != str(escrowAddress) ==> totalEscrowOf(kv(ctx, k.storeService), coin.Denom) - T0 == bal(ledger(ctx), str(escrowAddress), coin.Denom) - bal(L0, str(escrowAddress), coin.Denom)
 
 //@ contract (*Keeper).UnescrowCoin
 //@   let L0 = ledger(ctx)
@@ -62,6 +63,7 @@ package keeper
 //@   ensures tracked: err == nil ==> totalEscrowOf(kv(ctx, k.storeService), coin.Denom) == T0 - coin.Amount && T0 >= coin.Amount
 //@   ensures one_key: err == nil ==> onlyKeyChanged(withLedger(old(world(ctx)), ledger(ctx)), world(ctx), escrowKey(coin.Denom))
 //@   ensures funded: err == nil && coin.Amount > 0 ==> bal(L0, str(escrowAddress), coin.Denom) >= coin.Amount
+//@   ensures total_follows_escrow_balance: err == nil && str(receiver) != str(escrowAddress) ==> totalEscrowOf(kv(ctx, k.storeService), coin.Denom) - T0 == bal(ledger(ctx), str(escrowAddress), coin.Denom) - bal(L0, str(escrowAddress), coin.Denom)
 
 //@ contract (*Keeper).SendTransfer
 //@   let L0 = ledger(ctx)
